@@ -1054,7 +1054,14 @@ def c03(tier):
     jobs = [T("transformer", "VerifC03_PrePass", {"N": W(tier, 7, 9)}), LJ("VerifListener_Doc", tier, MODULES=1, NODES=W(tier, 3, 4), DEPTH=W(tier, 1, 2), SIBLINGS=0, CONDS=0),
             LJ("VerifListener_Doc", tier, MODULES=1, NODES=1, DEPTH=0, EXPRS=1), LJ("VerifListener_Doc", tier, CHAIN=W(tier, 9, 16), **SHAPES),
             LJ("VerifListener_Doc", tier, NODES=1, DEPTH=0, SIBLINGS=0, CONDS=1, FIXLAYOUT=1, PARAMS=2, PTYPES=1),
-            LJ("VerifListener_Doc", tier, MODULES=1, MODNAMES=1, EXTEND=1, NODES=1, DEPTH=0, SIBLINGS=0, CONDS=1, FIXLAYOUT=1, PARAMS=1)]
+            LJ("VerifListener_Doc", tier, MODULES=1, MODNAMES=1, EXTEND=1, NODES=1, DEPTH=0, SIBLINGS=0, CONDS=1, FIXLAYOUT=1, PARAMS=1),
+            # the parser stub itself: every generated tree is accepted, rule by rule, by the sub-automata of the ATN that the
+            # Go parser interprets (CONFORM=1; smaller sizes, the membership test is interpreted as well)
+            LJ("VerifListener_Doc", tier, CONFORM=1, NODES=W(tier, 2, 3), DEPTH=1, SIBLINGS=0, CONDS=0, N=1, FIXLAYOUT=W(tier, 1, 0)),
+            LJ("VerifListener_Doc", tier, CONFORM=1, MODULES=1, EXTEND=1, NODES=1, DEPTH=0, SIBLINGS=0, CONDS=0, N=1),
+            LJ("VerifListener_Doc", tier, CONFORM=1, NODES=1, DEPTH=0, SIBLINGS=0, CONDS=1, PARAMS=2, PTYPES=1, FIXLAYOUT=1, N=1),
+            LJ("VerifListener_Doc", tier, CONFORM=1, NODES=1, DEPTH=0, SIBLINGS=0, CONDS=1, PARAMS=1, EXPRS=1, FIXLAYOUT=1, N=1),
+            LJ("VerifListener_Doc", tier, CONFORM=1, CHAIN=W(tier, 5, 8), N=1, **SHAPES)]
     out = engine_a_check("C03", tier, jobs, {"VerifC03_PrePass": ["lemmas-checked"], "VerifListener_Doc": ["accepted"]},
                          PARSER_STUB + ["the ANTLR runtime's conformance to its ATN is outside (residual): that the runtime accepts every document the ATN admits and builds the tree the grammar dictates"], "",
                          bounds={"pre-pass": "all byte strings of length <= %d" % W(tier, 7, 9), "grammar facts": "no bound (regular-language inclusions on the ATN)"})
